@@ -55,6 +55,7 @@ def plan(tier):
         for lo in range(0, len(r2), 4000):
             sh.append(('native', gi, 2, ('rows', r2[lo:lo + 4000]), dict(cfg, unary_penalty=0.5), J))
         sh.append(('full', gi, 2, ('rows', r2[::7][:1500] if tier == 'quick' else r2[::3]), dict(cfg, unary_penalty=0.5), J))
+        sh.append(('full', gi, 2, ('rows', r2[3::11][:800] if tier == 'quick' else r2[1::3]), dict(cfg, unary_penalty=0.5, nbest=3), J))
         # n-best: every returned tree, not only the best one, must stay inside the beam
         sh.append(('native', gi, 1, ('rows', r1), dict(cfg, unary_penalty=0.5, nbest=4), J))
         for lo in range(0, len(r2), 4000):
@@ -65,6 +66,11 @@ def plan(tier):
         if len(g.tags) > 1:
             for cfg in (dict(pruning_size=1, use_beta=False), dict(pruning_size=len(g.tags), use_beta=True, beta=0.2), dict(pruning_size=2, use_beta=True, beta=0.01)):
                 sh.append(('native', gj, 2, ('dev', [0.0, -1.0, -4.0, -150.0, -1e33], -1.0, 2 if len(g.tags) < 4 else 1, 6000), dict(cfg, unary_penalty=0.5), J))
+            # the same through depccg.parsing.run: the settings have to arrive in the search as the caller gave them
+            # (filter off: a tag far below the best one is still available; filter on: it is not), 1-best and n-best
+            for cfg in (dict(pruning_size=len(g.tags), use_beta=False), dict(pruning_size=len(g.tags), use_beta=True, beta=0.2)):
+                for nb in (1, 3):
+                    sh.append(('full', gj, 2, ('dev', [0.0, -1.0, -150.0], -1.0, 2 if len(g.tags) < 4 else 1, 700 if tier == 'quick' else 6000), dict(cfg, unary_penalty=0.5, nbest=nb), J))
     return sh
 
 
